@@ -1,11 +1,16 @@
 """C08 - an attribute is one id-keyed table whichever way it is accessed (DESIGN.md section 4, C08).
 
-Tie D: random histories of public updates on real FEMAttribute / FEMAttributes objects and on the model
-(`Attr.step`, stateless `c08.step`); after every operation (ids, positional data, id-keyed frame,
-id2index) are compared, for each `Cfg`; exactly the `Cfg.fixed` behaviour is required.
-Oracle: all public read paths of the real object must agree with each other.
-Second stream: mixed-type element collections (`_update_self`, `filter_with_ids`,
-`generate_elemental_attribute`) against `Core.flatten` and brute-force definitions."""
+Tie D: random histories on real FEMAttribute / FEMAttributes objects and on the model (`Attr.hstep`, stateless
+`c08.hstep`): public updates interleaved with references the caller retains (slices kept across later updates and
+written through later, arrays returned by read paths, the data_frame); after every operation (ids, positional data,
+id-keyed frame, id2index) of the attribute AND of every slice still held are compared; exactly the `Cfg.fixed`
+behaviour is required (the upstream behaviours are `decide`d counterexamples, replayed from corpus/C08).
+Oracle: all public read paths of the real object (and of every retained slice) agree with each other; a write through
+a slice lands on the selected ids of the parent as it is NOW and nowhere else.
+Collections: FEMAttributes of attributes stored in different id orders, every collection-level read path against the
+attributes' own tables (`c08.cfilter`, `c08.csetattr`), also through FEMData.extract_with_element_indices.
+Further streams: time-series read paths; mixed-type element collections (`_update_self`, `filter_with_ids`,
+`generate_elemental_attribute`) against `Core.flatten` and brute-force definitions; uses outside the quantifier (counted only)."""
 import contextlib
 import io
 import math
@@ -20,19 +25,41 @@ PROP = 'C08'
 LEAN_MODULES = ['Femio.Props.C08']
 THEOREMS = ['C08_inv_init', 'C08_inv', 'C08_reachable', 'C08_views_agree', 'C08_filter_with_ids', 'C08_update_spec',
             'C08_mixed_once_sorted',
-            'C08_counterexample_loc_write', 'C08_counterexample_overwrite', 'C08_counterexample_update_index']
-PARTIAL = ['time-series and ragged (object) attributes: read paths are exercised by the oracle only, not modelled '
-           '(update raises NotImplementedError for time series)',
+            'C08_hist_inv', 'C08_hist_reachable', 'C08_keepRef_noop', 'C08_write_through_by_id', 'C08_held_write_by_id',
+            'C08_collection_filter', 'C08_collection_set_attribute',
+            'C08_counterexample_loc_write', 'C08_counterexample_overwrite', 'C08_counterexample_update_index',
+            'C08_counterexample_iloc_scalar', 'C08_counterexample_slice_alias']
+PARTIAL = ['time-series attributes: data assignment and every read path (ids, data, loc, iloc, filter_with_ids) are checked by the oracle '
+           'only, not modelled; update raises NotImplementedError for time series and write-through of a time-series slice is not exercised',
+           'ragged (object) attributes: read paths of polyhedron blocks are exercised by the element stream (oracle only), not modelled',
            'update(allow_overwrite=False) raises AttributeError on the installed pandas (DataFrame.append removed): modelled '
-           'as the error it is, state unchanged (F5)']
-RULE = ('seeded histories of 1..12 (thorough: ..30) public updates (data assignment, update with/without overwrite incl. NaN '
-        'cells and new ids, write through .loc / .iloc slices, FEMAttributes.overwrite with and without ids) on attributes '
-        'with unsorted / sparse / large ids, rank 1..3 data, with and without id2index; after every operation all read paths '
-        'are dumped; a case = one operation applied to one state; non-trivial = the operation changed the state or raised; '
-        'plus mixed-type element collections with interleaved ids')
+           'as the error it is, state unchanged (F5)',
+           'slices of slices (a.loc[..].loc[..].data = v reaches the intermediate slice only) are neither modelled nor exercised',
+           'the upstream aliasing of slices (Cfg.sliceOwnsData = false) is modelled in simplified form (any retained reference severs '
+           'the view); only the decide-d counterexample C08_counterexample_slice_alias and its corpus replay rely on it']
+RULE = ('seeded histories of 1..12 (thorough: ..30) operations on one attribute with unsorted / sparse / large / "looks sorted" '
+        '(midshuf, swap2) ids, rank 1..3 data, with and without id2index: public updates (data assignment, update with/without '
+        'overwrite incl. NaN cells and new ids that re-sort the rows, write through .loc / .iloc slices spelled as list / array / Index / '
+        'one key / boolean mask / positional slice, FEMAttributes.overwrite with and without ids) INTERLEAVED with references the caller '
+        'retains: slices a.loc[..] / a.iloc[..] kept across later updates of the parent and written through later (.data =, .update), '
+        'arrays returned by .data / .values / .ids / to_dict, the data_frame and pieces of it; after every operation the attribute and '
+        'every slice still held are dumped through all read paths and compared with the model; a write through a slice is also checked '
+        'by id against the snapshot taken before it (selected ids hold what the slice says, other ids keep their rows); a case = one '
+        'operation applied to one state; non-trivial = the operation changed the state or raised; '
+        'plus collections (FEMAttributes) of 2..4 attributes over the same ids in DIFFERENT orders / other id sets / other lengths, '
+        'built by constructor, update_data, update, set_attribute_data, read after each of 0..3 collection-level updates through '
+        'filter_with_ids, extract_dict, get_attribute_ids/data, get_data_length, are_same_lengths, to_dict/from_dict, to_meshio and '
+        'FEMData.extract_with_element_indices (non-trivial = attributes stored in different id orders); time-series attributes '
+        '(assignment, then every read path); mixed-type element collections with interleaved ids; a labelled stream of uses outside '
+        'the quantifier (caller edits its own array after handing it over, ids assigned, an element block written behind the '
+        'collection) is recorded in the distribution and never reported')
 ASSUMPTIONS = ['pandas combine_first semantics (union index sorted ascending unless the two indexes are identical; cell-wise '
                '"new unless NaN") are reproduced by the model and validated by this correspondence',
-               'ids are pairwise distinct (the property\'s id sets)']
+               'ids are pairwise distinct (the property\'s id sets), also within one selection',
+               'FEMAttributes.overwrite(name, data, ids=...) puts a NEW attribute object into the collection: slices of the old object '
+               'are dropped from the history (model and harness)',
+               'a slice is a snapshot (copy) of the selected rows that writes through to its parent by id; this is what the repaired '
+               'code does and what the correspondence validates for every retained slice after every operation']
 
 NAN = float('nan')
 
@@ -118,6 +145,14 @@ def oracle(a):
             bad.append(('read-raises', f'id {i} at {k}: {type(e).__name__}: {e}'))
         if len(bad) > 3:
             break
+    if n and a.generate_id2index and not bad:
+        try:          # id -> position translation keeps the shape of what it is given (2-d connectivity, object rows)
+            p2 = a.ids2indices(np.array([ids[::-1], ids]))
+            po = a.ids2indices(np.array([np.array(ids[:1]), np.array(ids)], dtype=object))
+            if np.asarray(p2).tolist() != [list(range(n))[::-1], list(range(n))] or [list(map(int, x)) for x in po] != [[0], list(range(n))]:
+                bad.append(('ids2indices', 'ids2indices of a 2-d / ragged array of ids is not the array of their positions'))
+        except Exception as e:
+            bad.append(('read-raises', f'ids2indices (2-d / ragged): {type(e).__name__}: {e}'))
     if n:
         sel = ids[::-1][: max(1, n // 2)]
         try:
@@ -134,31 +169,81 @@ def shape_rows(rows, tail):
     return a.reshape([len(rows)] + list(tail))
 
 
+PUB = ('setData', 'update', 'locWrite', 'ilocWrite', 'overwrite', 'overwriteIds')
+N_REF_KINDS = 10
+
+
+def make_key(form, sel, a, positional=False):
+    """the same selection spelled in the different ways a caller may spell it"""
+    if form == 'scalar':
+        return sel[0]
+    if form == 'array':
+        return np.array(sel)
+    if form == 'slice':          # contiguous positions (iloc only)
+        return slice(sel[0], sel[-1] + 1)
+    if form == 'mask':           # boolean mask over the stored rows (selection in stored order)
+        return np.isin(np.arange(len(a.ids)) if positional else a.ids, sel)
+    if form == 'index':
+        import pandas as pd
+        return pd.Index(sel)
+    return list(sel)
+
+
 def apply_real(holder, op):
-    """holder = {'attrs': FEMAttributes, 'name': str}; returns error kind"""
+    """holder = {'attrs': FEMAttributes, 'name': str, 'held': [slices kept by the caller], 'refs': [...]}; returns error kind"""
     from femio import FEMAttributes  # noqa
     a = holder['attrs'][holder['name']]
     tail = holder['tail']
+    held = holder.setdefault('held', [])
     kind = op[0]
+    form = op[3] if kind in ('locWrite', 'ilocWrite') and len(op) > 3 else (op[2] if kind in ('take', 'takeI') and len(op) > 2 else 'list')
     try:
         with contextlib.redirect_stdout(io.StringIO()):
             if kind == 'setData':
-                a.data = shape_rows(op[1], tail)
+                if len(op) > 2 and op[2] == 'update_data':
+                    a.update_data(shape_rows(op[1], tail))
+                else:
+                    a.data = shape_rows(op[1], tail)
             elif kind == 'update':
-                a.update(list(op[1]), shape_rows(op[2], tail), allow_overwrite=bool(op[3]))
+                spell = op[4] if len(op) > 4 else 'list'
+                ids_, vals = list(op[1]), shape_rows(op[2], tail)
+                if spell == 'scalar' and len(ids_) == 1:          # update(id, value): one id, not wrapped in a list
+                    ids_ = ids_[0]
+                    if not tail:
+                        vals = float(vals[0])
+                elif spell == 'array':
+                    ids_ = np.array(ids_)
+                elif spell == 'tuple':
+                    ids_ = tuple(ids_)
+                a.update(ids_, vals, allow_overwrite=bool(op[3]))
             elif kind == 'locWrite':
-                a.loc[list(op[1])].data = shape_rows(op[2], tail)
+                a.loc[make_key(form, list(op[1]), a)].data = shape_rows(op[2], tail)
             elif kind == 'ilocWrite':
-                a.iloc[list(op[1])].data = shape_rows(op[2], tail)
+                a.iloc[make_key(form, list(op[1]), a, True)].data = shape_rows(op[2], tail)
             elif kind == 'overwrite':
                 holder['attrs'].overwrite(holder['name'], shape_rows(op[1], tail))
             elif kind == 'overwriteIds':
                 holder['attrs'].overwrite(holder['name'], shape_rows(op[2], tail), ids=np.array(op[1]))
+                del held[:]          # a NEW object sits in the collection: the slices held belong to the old one
+            elif kind == 'take':
+                held.append(a.loc[make_key(form, list(op[1]), a)])
+            elif kind == 'takeI':
+                held.append(a.iloc[make_key(form, list(op[1]), a, True)])
+            elif kind == 'heldSet':
+                held[op[1]].data = shape_rows(op[2], tail)
+            elif kind == 'heldUpdate':
+                held[op[1]].update(list(op[2]), shape_rows(op[3], tail), allow_overwrite=True)
+            elif kind == 'drop':
+                del held[op[1]]
             elif kind == 'keepRef':
-                # a caller reads the public data_frame and keeps (lazily shared, copy-on-write) pieces of it alive:
-                # not an update - the attribute must behave exactly as before
+                # a caller reads a public accessor and keeps what it returned (lazily shared, copy-on-write pieces of the
+                # frame, the array behind .data, a slice's array ...): not an update - the attribute must behave as before
                 df = a.data_frame
-                holder.setdefault('refs', []).append([df[0], df.iloc[:2], df.copy(deep=False)][op[1] % 3])
+                k = op[1] % N_REF_KINDS
+                ref = [lambda: df[0], lambda: df.iloc[:2], lambda: df.copy(deep=False), lambda: a.data, lambda: a.values,
+                       lambda: a.ids, lambda: a.iloc[[0]].data, lambda: a.to_dict(), lambda: df.values,
+                       lambda: a.filter_with_ids(a.ids[:1]).data_frame][k]()
+                holder.setdefault('refs', []).append(ref)
         return 'ok'
     except ValueError:
         return 'value_error'
@@ -178,6 +263,38 @@ def enc_op(op):
     return f'{k} {C.enc_list(op[1])} {enc_rows(op[2])}'
 
 
+def enc_hop(op):
+    k = op[0]
+    if k in PUB:
+        return 'pub ' + enc_op(op)
+    if k == 'keepRef':
+        return 'keepRef'
+    if k == 'takeI' and len(op) > 2 and op[2] == 'scalar':
+        return f'takeI1 {op[1][0]}'
+    if k == 'takeI' and len(op) > 2 and op[2] in ('slice', 'mask'):          # keys pandas may serve as views of the parent
+        return f'takeView {C.enc_list(op[1])}'
+    if k in ('take', 'takeI'):
+        return f'{k} {C.enc_list(op[1])}'
+    if k == 'heldSet':
+        return f'heldSet {op[1]} {enc_rows(op[2])}'
+    if k == 'heldUpdate':
+        return f'heldUpdate {op[1]} {C.enc_list(op[2])} {enc_rows(op[3])}'
+    return f'drop {op[1]}'
+
+
+def enc_hist(h):
+    return (f'{enc_state(h[0])} {C.enc_list(h[1], enc_state)} {h[2]} '
+            + C.enc_list(h[3], lambda v: '0' if v is None else '1 ' + C.enc_list(v)))
+
+
+def parse_hist(t):
+    cur = parse_state(t)
+    held = t.lst(lambda: parse_state(t))
+    refs = t.nat()
+    vws = t.lst(lambda: t.lst(t.nat) if t.nat() else None)
+    return cur, held, refs, vws
+
+
 def rand_val(r, allow_nan):
     u = r.random()
     if allow_nan and u < .2:
@@ -191,18 +308,63 @@ def rand_rows(r, n, w, allow_nan=False):
     return [[rand_val(r, allow_nan) for _ in range(w)] for _ in range(n)]
 
 
-def rand_op(r, ids, w):
+def rand_sel(r, ids, loc=True, scalar_iloc=False):
+    """a selection of stored ids (loc) / positions (iloc) and a way of spelling it"""
+    n = len(ids)
+    u = r.random()
+    if loc:
+        if u < .12:
+            return [r.choice(ids)], 'scalar'
+        if u < .24:
+            k = r.randint(1, n)
+            chosen = set(r.sample(ids, k))
+            return [i for i in ids if i in chosen], 'mask'
+        return r.sample(ids, r.randint(1, n)), r.choice(['list', 'list', 'array', 'index'])
+    if scalar_iloc and u > .9:
+        return [r.randrange(n)], 'scalar'
+    if u < .2:
+        i = r.randrange(n)
+        j = r.randint(i, n - 1)
+        return list(range(i, j + 1)), 'slice'
+    if u < .3:
+        chosen = set(r.sample(range(n), r.randint(1, n)))
+        return [k for k in range(n) if k in chosen], 'mask'
+    return r.sample(range(n), r.randint(1, n)), r.choice(['list', 'list', 'array'])
+
+
+def rand_op(r, ids, w, held_ids=(), slicey=False, scalar_iloc=False):
+    """one operation of the history alphabet; `held_ids` = the ids of the slices the caller still holds"""
     n = len(ids)
     if r.random() < .07:
-        return ('keepRef', r.randrange(3))
+        return ('keepRef', r.randrange(N_REF_KINDS))
+    if slicey or held_ids:
+        v = r.random()
+        if held_ids and v < .22:
+            k = r.randrange(len(held_ids))
+            m = len(held_ids[k])
+            return ('heldSet', k, rand_rows(r, m if r.random() < .95 else m + 1, w))
+        if held_ids and v < .30:
+            k = r.randrange(len(held_ids))
+            sel = r.sample(held_ids[k], r.randint(1, len(held_ids[k])))
+            return ('heldUpdate', k, sel, rand_rows(r, len(sel), w, allow_nan=True))
+        if held_ids and v < .33:
+            return ('drop', r.randrange(len(held_ids)))
+        if len(held_ids) < 3 and v < (.62 if not held_ids else .45):
+            if r.random() < .65:
+                sel, form = rand_sel(r, ids, True)
+                if r.random() < .04:
+                    sel, form = sel + [max(ids) + 3], 'list'
+                return ('take', sel, form)
+            pos, form = rand_sel(r, ids, False, scalar_iloc)
+            return ('takeI', pos, form)
     u = r.random()
     if u < .14:
-        return ('setData', rand_rows(r, n if r.random() < .9 else n + 1, w))
-    if u < .42:
+        return ('setData', rand_rows(r, n if r.random() < .9 else n + 1, w), r.choice(['data', 'data', 'update_data']))
+    if u < .42 or (held_ids and u < .6):
         k = r.randint(1, max(1, n))
         old = r.sample(ids, min(k, n)) if r.random() < .8 else []
         new = []
-        if r.random() < .5:
+        if r.random() < (.7 if held_ids else .5):
             new = []
             while len(new) < r.randint(1, 3):
                 c = r.choice([r.randint(1, 60), max(ids) + r.randint(1, 9), max(1, min(ids) - r.randint(1, 9))])
@@ -214,16 +376,19 @@ def rand_op(r, ids, w):
             sel = list(ids)           # identical index: pandas does not sort the union
         if not sel:
             sel = [ids[0]]
-        return ('update', sel, rand_rows(r, len(sel), w, allow_nan=True), r.random() < .9)
+        if r.random() < .15:
+            sel = sel[:1]
+        return ('update', sel, rand_rows(r, len(sel), w), r.random() < .9, 'scalar') if len(sel) == 1 and r.random() < .7 else \
+            ('update', sel, rand_rows(r, len(sel), w, allow_nan=True), r.random() < .9, r.choice(['list', 'list', 'array', 'tuple']))
     if u < .65:
-        sel = r.sample(ids, r.randint(1, n))
+        sel, form = rand_sel(r, ids, True)
         if r.random() < .07:
-            sel = sel + [max(ids) + 5]
+            sel, form = sel + [max(ids) + 5], 'list'
         nrows = len(sel) if r.random() < .93 else len(sel) + 1
-        return ('locWrite', sel, rand_rows(r, nrows, w))
+        return ('locWrite', sel, rand_rows(r, nrows, w), form)
     if u < .8:
-        pos = r.sample(range(n), r.randint(1, n))
-        return ('ilocWrite', pos, rand_rows(r, len(pos), w))
+        pos, form = rand_sel(r, ids, False, scalar_iloc)
+        return ('ilocWrite', pos, rand_rows(r, len(pos), w), form)
     if u < .93:
         return ('overwrite', rand_rows(r, n if r.random() < .9 else max(0, n - 1), w))
     m = r.randint(1, 6)
@@ -231,88 +396,613 @@ def rand_op(r, ids, w):
     return ('overwriteIds', nid, rand_rows(r, m, w))
 
 
+def table_of(st):
+    """id -> row of an observed state (positional view)"""
+    return dict(zip(st[0], [tuple(x) for x in st[1]]))
+
+
+def check_scalar_slices(a):
+    """a slice selected with ONE key is an attribute over that one id: (ids, data) of `a.loc[i]` / `a.iloc[k]` must be
+    (ids[k], data[k]) - the positional and the id-keyed description of the same row"""
+    ids = [int(i) for i in a.ids]
+    n = len(ids)
+    data = rows_of(a.data, n)
+    bad = []
+    for k, i in enumerate(ids):
+        for path, c in (('loc', a.loc[i]), ('iloc', a.iloc[k])):
+            got = ([int(x) for x in c.ids], rows_of(c.data, 1))
+            if got != ([i], [data[k]]):
+                bad.append((f'{path}-scalar', f'{path}[{i if path == "loc" else k}] is the slice (ids, data) = {got[0], [[str(v) for v in x] for x in got[1]]} '
+                            f'but position {k} holds id {i} with {[str(v) for v in data[k]]}'))
+                break
+    return bad
+
+
+def step_oracles(holder, op, err, before, before_held, after, after_held, first):
+    """the property stated on the real objects after one operation of a history (independent of the model);
+    returns [(signature, what, fatal)]"""
+    a = holder['attrs'][holder['name']]
+    out = []
+    bad = oracle(a)
+    if bad:
+        return [(f'views-disagree:{op[0]}:{bad[0][0]}', f'after {op[0]} the read paths of the attribute disagree: {bad[0][1]}', True)]
+    touched = ([len(holder['held']) - 1] if op[0] in ('take', 'takeI') and err == 'ok' else
+               [op[1]] if op[0] in ('heldSet', 'heldUpdate') and op[1] < len(holder['held']) else [])
+    for k in touched:          # a slice is itself an attribute
+        bad = oracle(holder['held'][k])
+        if bad:
+            return [(f'views-disagree:{op[0]}:slice:{bad[0][0]}', f'after {op[0]} the read paths of the slice (itself an attribute) '
+                     f'disagree: {bad[0][1]}', True)]
+    for k, st in enumerate(after_held):          # every slice the caller still holds: positional rows = id-keyed rows
+        if k not in touched and st[1] != st[2]:
+            j = next(j for j in range(len(st[0])) if st[1][j] != st[2][j])
+            return [('retained-slice:views-disagree', f'after {op[0]} on the attribute, a slice taken earlier and still held (ids {st[0]}) '
+                     f'says data[{j}] = {[str(v) for v in st[1][j]]} but loc[{st[0][j]}] = {[str(v) for v in st[2][j]]}: its positional view '
+                     'follows later writes to the parent, its id-keyed view does not', True)]
+    if err != 'ok' and (before != after or before_held != after_held):
+        return [(f'failed-op-mutates:{op[0]}', f'{op[0]} raised {err} but changed the attribute', True)]
+    if op[0] == 'keepRef' and (before != after or before_held != after_held):
+        return [('read-mutates:keep-reference', 'reading a public accessor and keeping what it returned changed the attribute', True)]
+    # ---- what a slice / a write through a slice is, by id
+    if err == 'ok' and op[0] in ('take', 'takeI'):
+        want_ids = list(op[1]) if op[0] == 'take' else [before[0][k] for k in op[1]]
+        tb = table_of(before)
+        got = after_held[-1]
+        if got[0] != want_ids or [tuple(x) for x in got[1]] != [tb[i] for i in want_ids]:
+            return [(f'slice-differs:{op[0]}', f'the slice {op[0]}({op[1]}, spelled as {op[2]}) does not hold the selected ids with '
+                     f'the rows the attribute stores for them: slice ids {got[0]}', True)]
+    if err == 'ok' and op[0] in ('locWrite', 'ilocWrite', 'heldSet', 'heldUpdate'):
+        if op[0] in ('heldSet', 'heldUpdate'):
+            child = table_of(after_held[op[1]])            # what the caller's slice says after the write
+        else:
+            sel = list(op[1]) if op[0] == 'locWrite' else [before[0][k] for k in op[1]]
+            child = dict(zip(sel, [tuple(x) for x in op[2]]))
+        tb, ta = table_of(before), table_of(after)
+        probs = []
+        if after[0] != before[0]:
+            probs.append(('ids-changed', f'ids {before[0]} -> {after[0]}'))
+        for i, row in child.items():
+            if ta.get(i) != row:
+                probs.append(('selected-id', f'the slice says id {i} -> {[str(v) for v in row]} but the attribute says id {i} -> '
+                              f'{[str(v) for v in ta.get(i, ())]}'))
+                break
+        for i in tb:
+            if i not in child and ta.get(i) != tb[i]:
+                probs.append(('other-id', f'id {i} was not selected but its row changed from {[str(v) for v in tb[i]]} to '
+                              f'{[str(v) for v in ta.get(i, ())]}'))
+                break
+        if probs:
+            return [(f'write-through:{op[0]}:{probs[0][0]}', f'after writing through an id-selected slice ({op[0]}) the attribute and '
+                     f'the slice describe different tables: ' + '; '.join(q[1] for q in probs), True)]
+    # ---- single-key slices (a read path) describe the same row by id and by position
+    if first or before[0] != after[0]:
+        bad = check_scalar_slices(a)
+        if bad:
+            out.append((f'slice-ids:{bad[0][0]}', f'after {op[0]}: {bad[0][1]}', False))
+    return out
+
+
 def history(ctx, hid):
     from femio import FEMAttribute, FEMAttributes
     r = ctx.rng
     n = r.randint(1, 7)
     ids, style = mg.random_ids(r, n)
-    order = r.choice(['asc', 'desc', 'shuf'])
-    ids.sort(reverse=(order == 'desc'))
-    if order == 'shuf':
-        r.shuffle(ids)
+    ids, order = mg.order_ids(r, list(ids), {i: i for i in ids}, r.choice(['asc', 'desc', 'shuf', 'shuf', 'midshuf', 'swap2']))
     tail = r.choice([[], [1], [3], [2, 2], [3, 3]])
     w = int(np.prod(tail)) if tail else 1
     with_idx = r.random() < .6
+    slicey = r.random() < .55          # histories in which the caller keeps slices and writes through them later
     rows0 = rand_rows(r, n, w)
     a = FEMAttribute('x', ids=np.array(ids), data=shape_rows(rows0, tail), silent=True, generate_id2index=with_idx)
-    holder = {'attrs': FEMAttributes({'x': a}), 'name': 'x', 'tail': tail}
+    holder = {'attrs': FEMAttributes({'x': a}), 'name': 'x', 'tail': tail, 'held': [], 'refs': []}
+    moved = []             # per held slice: did the parent's ids / order change since the slice was taken
+    scalar_iloc = not check_scalar_slices(a)      # write through `a.iloc[k]` (one int) only where that slice carries the id
     ctx.count(f'ids:{style}/{order}')
     ctx.count(f'rank:{len(tail) + 1}')
     ctx.count('id2index:' + ('yes' if with_idx else 'no'))
+    ctx.count('history:' + ('retained-slices' if slicey else 'plain'))
     ops = []
-    model = {}
-    cfgs = [(1, 1, 1), (0, 0, 0)]
+    model = None
     if ctx.driver is not None:
         t = C.Toks(ctx.driver.ask(f'c08.new {int(with_idx)} {C.enc_list(ids)} {enc_rows(rows0)}'))
         assert t.tok() == 'ok' and t.tok() == 'ok'
-        st0 = parse_state(t)
-        for c in cfgs:
-            model[c] = st0
+        model = (parse_state(t), [], 0, [])
     for step in range(r.randint(1, ctx.n(12, 30))):
         a = holder['attrs'][holder['name']]
         cur_ids = [int(i) for i in a.ids]
-        op = rand_op(r, cur_ids, w)
+        held_ids = [[int(i) for i in c.ids] for c in holder['held']]
+        op = rand_op(r, cur_ids, w, held_ids, slicey, scalar_iloc)
         before = observe(a)
+        before_held = [observe(c) for c in holder['held']]
         err = apply_real(holder, op)
         ops.append(op)
         a = holder['attrs'][holder['name']]
         case = {'ids': ids, 'rows0': rows0, 'tail': tail, 'with_index': with_idx, 'ops': ops[:]}
         try:
             after = observe(a)
+            after_held = [observe(c) for c in holder['held']]
         except Exception as e:
             ctx.case((hid, step), nontrivial=True)
             ctx.fail(f'views-disagree:{op[0]}:data', f'after {op[0]} ({err}) the attribute cannot be read any more: '
                      f'{type(e).__name__}: {e}', case, None)
             return
         ctx.case((hid, step), sample={'initial_ids': ids, 'tail': tail, 'op': op[0], 'result': err, 'n_ops_before': step},
-                 nontrivial=(before != after) or err != 'ok')
+                 nontrivial=(before != after) or before_held != after_held or err != 'ok')
         ctx.count('op:' + op[0] + ('' if err == 'ok' else '/' + err))
-        # ---- oracle: read paths agree on the real object
-        bad = oracle(a)
-        if bad:
-            path, detail = bad[0]
-            ctx.fail(f'views-disagree:{op[0]}:{path}', f'after {op[0]} the read paths of the attribute disagree: {detail}',
-                     case, {'problems': bad[:5]})
+        if op[0] in ('take', 'takeI', 'locWrite', 'ilocWrite') and err == 'ok':
+            ctx.count('key-form:' + (op[3] if op[0].endswith('Write') else op[2]))
+        if op[0] in ('heldSet', 'heldUpdate') and err == 'ok':
+            ctx.count('write-through:retained-slice' + (':parent-rows-moved-since' if moved[op[1]] else ''))
+        # ---- oracle
+        fatal = False
+        for sig, what, f in step_oracles(holder, op, err, before, before_held, after, after_held, step == 0):
+            ctx.fail(sig, what, case, None)
+            fatal = fatal or f
+        if fatal:
             return
-        if err != 'ok' and before != after:
-            ctx.fail(f'failed-op-mutates:{op[0]}', f'{op[0]} raised {err} but changed the attribute', case, None)
-            return
+        if err == 'ok':
+            if op[0] in ('take', 'takeI'):
+                moved.append(False)
+            elif op[0] == 'drop':
+                del moved[op[1]]
+            elif op[0] == 'overwriteIds':
+                del moved[:]
+            elif before[0] != after[0]:
+                moved[:] = [True] * len(moved)
         # ---- correspondence
-        if op[0] == 'keepRef':
-            if before != after:
-                ctx.fail('read-mutates:data_frame', 'reading data_frame and keeping a reference changed the attribute', case, None)
+        if ctx.driver is not None and model is not None:
+            rep = ctx.driver.ask(f'c08.hstep 1 1 1 1 1 {enc_hist(model)} {enc_hop(op)}')
+            t = C.Toks(rep)
+            if t.tok() != 'ok':
+                raise RuntimeError('driver: ' + rep[:300])
+            merr = t.tok()
+            model = parse_hist(t)
+            if (merr, model[0], model[1]) != (err, after, after_held):
+                ctx.disagree(f'state after {op[0]}', case, {'err': err, 'state': after, 'held': after_held, 'exc': holder.get('last_exc')},
+                             {'err': merr, 'state': model[0], 'held': model[1]})
                 return
-            continue
-        if ctx.driver is not None:
-            for c in cfgs:
-                if model[c] is None:
-                    continue
-                rep = ctx.driver.ask(f'c08.step {c[0]} {c[1]} {c[2]} {enc_state(model[c])} {enc_op(op)}')
-                t = C.Toks(rep)
-                if t.tok() != 'ok':
-                    raise RuntimeError('driver: ' + rep[:300])
-                merr = t.tok()
-                mst = parse_state(t)
-                model[c] = mst
-                if c == (1, 1, 1):
-                    if (merr, mst) != (err, after):
-                        ctx.disagree(f'state after {op[0]}', case, {'err': err, 'state': after, 'exc': holder.get('last_exc')},
-                                     {'err': merr, 'state': mst})
-                        return
-                    if merr == 'ok' and op[0] == 'overwriteIds':
-                        pass
         if op[0] == 'overwriteIds' and err == 'ok':
             with_idx = False
+
+
+# ------------------------------------------------------------------------------------------------ collections
+def _attr_from(spec):
+    from femio import FEMAttribute
+    return FEMAttribute(spec['name'], ids=np.array(spec['ids']), data=shape_rows(_restore(spec['rows']), spec['tail']), silent=True,
+                        generate_id2index=spec.get('with_index', False))
+
+
+def build_collection(spec):
+    """a FEMAttributes whose attributes arrive the ways they do in practice: constructor, update_data (a field computed later,
+    ids in the order of whoever computed it), update, set_attribute_data"""
+    from femio import FEMAttributes
+    first = spec['attrs'][0]
+    with contextlib.redirect_stdout(io.StringIO()):
+        if first['route'] == 'list':
+            coll = FEMAttributes([_attr_from(first)])
+        elif first['route'] == 'arrays':
+            coll = FEMAttributes(names=[first['name']], ids=np.array(first['ids']),
+                                 list_arrays=[shape_rows(_restore(first['rows']), first['tail'])])
+        else:
+            coll = FEMAttributes({first['name']: _attr_from(first)})
+        for sp in spec['attrs'][1:]:
+            data = shape_rows(_restore(sp['rows']), sp['tail'])
+            if sp['route'] == 'update_data':
+                coll.update_data(np.array(sp['ids']), {sp['name']: data})
+            elif sp['route'] == 'update':
+                coll.update({sp['name']: _attr_from(sp)})
+            elif sp['route'] == 'set_attribute_data':
+                coll.set_attribute_data(sp['name'], data)
+            else:
+                coll[sp['name']] = _attr_from(sp)
+    return coll
+
+
+def apply_collection_op(coll, tails, op):
+    kind = op[0]
+    try:
+        with contextlib.redirect_stdout(io.StringIO()):
+            if kind == 'update_data':
+                coll.update_data(list(op[1]), {nm: shape_rows(_restore(rows), tails[nm]) for nm, rows in op[2].items()},
+                                 allow_overwrite=True)
+            elif kind == 'overwrite':
+                coll.overwrite(op[1], shape_rows(_restore(op[2]), tails[op[1]]))
+            elif kind == 'overwriteIds':
+                coll.overwrite(op[1], shape_rows(_restore(op[3]), tails[op[1]]), ids=np.array(op[2]))
+            elif kind == 'locWrite':
+                coll[op[1]].loc[list(op[2])].data = shape_rows(_restore(op[3]), tails[op[1]])
+            elif kind == 'set_attribute_data':
+                coll.set_attribute_data(op[1], shape_rows(_restore(op[2]), op[3]), allow_overwrite=bool(op[4]))
+                tails[op[1]] = op[3]
+            elif kind == 'pop':
+                coll.pop(op[1])
+                tails.pop(op[1], None)
+        return 'ok'
+    except ValueError:
+        return 'value_error'
+    except (KeyError, IndexError):
+        return 'key_error'
+
+
+def collection_reads(coll, sel, model_ask=None):
+    """every collection-level read path against the attributes' own id-keyed tables; returns [(signature, detail)] and
+    the observed states"""
+    from femio import FEMAttributes
+    names = list(coll.keys())
+    states, tables = {}, {}
+    for nm in names:
+        bad = oracle(coll[nm])
+        if bad:
+            return [(f'collection:attribute:{bad[0][0]}', f'attribute {nm}: {bad[0][1]}')], None
+        states[nm] = observe(coll[nm])
+        tables[nm] = table_of(states[nm])
+    out = []
+    lens = [len(states[nm][0]) for nm in names]
+    same = len(set(lens)) == 1
+    # get_data_length / are_same_lengths
+    if bool(coll.are_same_lengths()) != same:
+        out.append(('collection:are_same_lengths', f'are_same_lengths() = {coll.are_same_lengths()} for lengths {lens}'))
+    try:
+        gl = int(coll.get_data_length())
+        if not same or gl != lens[0]:
+            out.append(('collection:get_data_length', f'get_data_length() = {gl} for lengths {lens}'))
+    except Exception as e:          # which error is raised for unequal lengths is not the property's business
+        if same:
+            out.append(('collection:get_data_length', f'get_data_length() raised {type(e).__name__} for equal lengths {lens}'))
+    # get_attribute_ids / get_attribute_data, one name and a list of names
+    for nm in names:
+        if [int(i) for i in coll.get_attribute_ids(nm)] != states[nm][0] or \
+                rows_of(coll.get_attribute_data(nm), len(states[nm][0])) != states[nm][1]:
+            out.append(('collection:get_attribute', f'get_attribute_ids/data({nm!r}) differ from the attribute'))
+    gi, gd = coll.get_attribute_ids(tuple(names)), coll.get_attribute_data(tuple(names))
+    if [[int(i) for i in x] for x in gi] != [states[nm][0] for nm in names] or \
+            [rows_of(d, len(states[nm][0])) for d, nm in zip(gd, names)] != [states[nm][1] for nm in names]:
+        out.append(('collection:get_attribute', 'get_attribute_ids/data(list of names) differ from the attributes'))
+    # to_dict and back; to_meshio
+    d = coll.to_dict()
+    if sorted(d) != sorted(f'{nm}/{x}' for nm in names for x in ('ids', 'data')) or any(
+            [int(i) for i in d[f'{nm}/ids']] != states[nm][0] or rows_of(d[f'{nm}/data'], len(states[nm][0])) != states[nm][1] for nm in names):
+        out.append(('collection:to_dict', 'to_dict() differs from the attributes'))
+    else:
+        with contextlib.redirect_stdout(io.StringIO()):
+            back = FEMAttributes.from_dict(d)
+        if sorted(back.keys()) != sorted(names) or any(table_of(observe(back[nm])) != tables[nm] for nm in names):
+            out.append(('collection:from_dict', 'from_dict(to_dict()) is a different collection of tables'))
+    mio = coll.to_meshio()
+    for nm in names:
+        if np.asarray(coll[nm].data).ndim < 3 and (nm not in mio or rows_of(mio[nm], len(states[nm][0])) != states[nm][1]):
+            out.append(('collection:to_meshio', f'to_meshio()[{nm!r}] differs from the attribute'))
+    # filter_with_ids / extract_dict: by id, on every attribute's OWN index
+    if sel:
+        want = {nm: [tables[nm].get(i) for i in sel] for nm in names}
+        defined = all(None not in w for w in want.values())
+        got = None
+        try:
+            f = coll.filter_with_ids(np.array(sel))
+            got = {nm: ([int(i) for i in f[nm].ids], [tuple(x) for x in rows_of(f[nm].data, len(sel))]) for nm in f.keys()}
+            ex = coll.extract_dict(list(sel))
+            gex = {nm: [tuple(x) for x in rows_of(v, len(sel))] for nm, v in ex.items()}
+        except (KeyError, IndexError) as e:
+            if defined:
+                out.append(('collection:filter_with_ids:raises', f'filter_with_ids({sel}) raised {type(e).__name__}: {e} although every '
+                            'attribute stores every selected id'))
+        if defined and got is not None:
+            for nm in names:
+                if nm not in got or got[nm][0] != list(sel) or got[nm][1] != want[nm]:
+                    i = next((i for i, g, w_ in zip(sel, got.get(nm, ([], []))[1], want[nm]) if g != w_), sel[0])
+                    out.append(('collection:filter_with_ids', f'filter_with_ids({sel})[{nm!r}] pairs id {i} with a row that lookup by id / '
+                                f'(ids[k], data[k]) of the same attribute do not give (ids of {nm!r}: {states[nm][0]}, ids of the first '
+                                f'attribute: {states[names[0]][0]})'))
+                    break
+                if gex.get(nm) != want[nm]:
+                    out.append(('collection:extract_dict', f'extract_dict({sel})[{nm!r}] differs from lookup by id'))
+                    break
+        if model_ask is not None:
+            t = C.Toks(model_ask('c08.cfilter ' + C.enc_list([states[nm] for nm in names], enc_state) + ' ' + C.enc_list(sel)))
+            assert t.tok() == 'ok'
+            mrows = None
+            if t.nat():
+                mrows = t.lst(lambda: [tuple(x) for x in t.lst(lambda: t.lst(lambda: (lambda x: 'n' if x == 'n' else Fraction(x))(t.tok())))])
+            mlen = t.nat() if t.nat() else None
+            impl = None if got is None else [got[nm][1] for nm in names]
+            if mrows != impl or mlen != (lens[0] if same else None):
+                out.append(('MODEL', (impl, mrows, mlen)))
+    return out, states
+
+
+def femdata_extract_check(coll, fd):
+    """FEMData.extract_with_element_indices filters nodal_data by node id: rows must be those the attributes hold for the ids"""
+    from femio import FEMData, FEMAttribute
+    names = list(coll.keys())
+    tables = {nm: table_of(observe(coll[nm])) for nm in names}
+    nodes = FEMAttribute('NODE', ids=np.array(fd['node_ids']), data=np.array(fd['coords'], dtype=float), silent=True)
+    elements = FEMAttribute('ELEMENT', ids=np.array(fd['elem_ids']), data=np.array(fd['conn']), silent=True)
+    with contextlib.redirect_stdout(io.StringIO()):
+        data = FEMData(nodes=nodes, elements=mg.quiet(lambda: __import__('femio').FEMElementalAttribute('ELEMENT', {fd['etype']: elements})),
+                       nodal_data=coll)
+        sub = data.extract_with_element_indices(np.array(fd['indices']))
+    used = sorted({n for k in fd['indices'] for n in fd['conn'][k]})
+    coords = dict(zip(fd['node_ids'], [tuple(Fraction(x) for x in c) for c in fd['coords']]))
+    out = []
+    if [int(i) for i in sub.nodes.ids] != used or [tuple(x) for x in rows_of(sub.nodes.data, len(used))] != [coords[i] for i in used]:
+        out.append(('collection:extract_with_element_indices:nodes', 'extracted nodes are not (id, coordinates) of the nodes used'))
+    for nm in names:
+        f = sub.nodal_data[nm]
+        if [int(i) for i in f.ids] != used or [tuple(x) for x in rows_of(f.data, len(used))] != [tables[nm][i] for i in used]:
+            out.append(('collection:extract_with_element_indices:nodal_data', f'nodal_data[{nm!r}] of the extracted part pairs node ids '
+                        f'{[int(i) for i in f.ids]} with rows that the attribute does not hold for them'))
+            break
+    return out
+
+
+def gen_collection(r):
+    n = r.randint(2, 7)
+    base, style = mg.random_ids(r, n)
+    base, order = mg.order_ids(r, list(base), {i: i for i in base})
+    attrs = []
+    m = r.randint(2, 4)
+    rel_of = []
+    for j in range(m):
+        tail = r.choice([[], [1], [2], [3], [2, 2]])
+        w = int(np.prod(tail)) if tail else 1
+        ids = list(base)
+        rel = 'first'
+        route = r.choice(['dict', 'list', 'arrays'])
+        if j:
+            rel = r.choice(['same-order', 'permuted', 'permuted', 'permuted', 'permuted', 'other-set', 'other-length'])
+            route = r.choice(['dict', 'update_data', 'update_data', 'update'])
+            if rel == 'same-order' and r.random() < .5 and all(len(x['ids']) == len(base) for x in attrs):
+                route = 'set_attribute_data'
+            if rel == 'permuted':
+                ids, _ = mg.order_ids(r, ids, {i: i for i in ids}, r.choice(['asc', 'desc', 'shuf', 'shuf', 'midshuf', 'swap2']))
+                if ids == base:
+                    ids = ids[::-1]
+            elif rel == 'other-set':
+                ids = r.sample(ids, len(ids))
+                for _ in range(r.randint(1, 2)):
+                    c = max(base) + r.randint(1, 20)
+                    if c not in ids:
+                        ids[r.randrange(len(ids))] = c
+            elif rel == 'other-length':
+                if r.random() < .5 and len(ids) > 1:
+                    ids = r.sample(ids, r.randint(1, len(ids) - 1))
+                else:
+                    ids = r.sample(ids, len(ids)) + [max(base) + r.randint(1, 9)]
+        rel_of.append(rel)
+        attrs.append({'name': 'TQUVW'[j] if j < 5 else f'A{j}', 'ids': ids, 'rows': rand_rows(r, len(ids), w), 'tail': tail,
+                      'with_index': (r.random() < .4 and route not in ('update_data', 'set_attribute_data', 'arrays')), 'route': route})
+    return {'kind': 'collection', 'attrs': attrs, 'ops': [], 'reads': []}, style, order, rel_of
+
+
+def rand_collection_op(r, coll, tails):
+    names = list(coll.keys())
+    ids_of = {nm: [int(i) for i in coll[nm].ids] for nm in names}
+    allids = sorted({i for v in ids_of.values() for i in v})
+    u = r.random()
+    nm = r.choice(names)
+    w = lambda t: int(np.prod(t)) if t else 1
+    if u < .3:
+        sel = r.sample(allids, r.randint(1, len(allids)))
+        if r.random() < .4:
+            sel.append(r.choice([max(allids) + r.randint(1, 5), max(1, min(allids) - 1)]))
+            sel = list(dict.fromkeys(sel))
+        r.shuffle(sel)
+        which = r.sample(names, r.randint(1, min(2, len(names))))
+        return ['update_data', sel, {x: rand_rows(r, len(sel), w(tails[x]), allow_nan=True) for x in which}]
+    if u < .45:
+        return ['overwrite', nm, rand_rows(r, len(ids_of[nm]), w(tails[nm]))]
+    if u < .55:
+        ids = r.sample(ids_of[nm], len(ids_of[nm]))
+        return ['overwriteIds', nm, ids, rand_rows(r, len(ids), w(tails[nm]))]
+    if u < .7:
+        sel = r.sample(ids_of[nm], r.randint(1, len(ids_of[nm])))
+        return ['locWrite', nm, sel, rand_rows(r, len(sel), w(tails[nm]))]
+    if u < .9:
+        key = r.choice(names + ['Z', 'Y'])
+        tail = r.choice([[], [2], [3]])
+        n0 = len(ids_of[names[0]])
+        return ['set_attribute_data', key, rand_rows(r, n0 if r.random() < .9 else n0 + 1, w(tail)), tail, r.random() < .8]
+    if len(names) > 2:
+        return ['pop', nm]
+    return ['overwrite', nm, rand_rows(r, len(ids_of[nm]), w(tails[nm]))]
+
+
+def pick_sel(r, coll):
+    names = list(coll.keys())
+    common = set(int(i) for i in coll[names[0]].ids)
+    for nm in names[1:]:
+        common &= set(int(i) for i in coll[nm].ids)
+    common = sorted(common)
+    if not common:
+        return []
+    sel = r.sample(common, r.randint(1, len(common)))
+    if r.random() < .05:          # an id that one of the attributes may not store: KeyError expected, model says so too
+        sel.append(int(max(int(i) for nm in names for i in coll[nm].ids)))
+        sel = list(dict.fromkeys(sel))
+    return sel
+
+
+def collection_stream(ctx, k):
+    r = ctx.rng
+    spec, style, order, rels = gen_collection(r)
+    ctx.count(f'collection:ids:{style}/{order}')
+    for rel in rels[1:]:
+        ctx.count('collection:attribute-vs-first:' + rel)
+    n_ops = r.choice([0, 1, 1, 2, 3])
+    try:
+        coll = build_collection(spec)
+        tails = {sp['name']: sp['tail'] for sp in spec['attrs']}
+        ask = ctx.driver.ask if ctx.driver is not None else None
+        for stage in range(n_ops + 1):
+            if stage:
+                op = rand_collection_op(r, coll, tails)
+                names = list(coll.keys())
+                all_states = [observe(coll[nm]) for nm in names]
+                err = apply_collection_op(coll, tails, op)
+                spec['ops'].append(op)
+                ctx.count('collection:op:' + op[0] + ('' if err == 'ok' else '/' + err))
+                if op[0] == 'set_attribute_data' and ask is not None:
+                    t = C.Toks(ask('c08.csetattr ' + C.enc_list(all_states, enc_state) + ' ' + enc_rows(op[2])))
+                    assert t.tok() == 'ok'
+                    merr = t.tok()
+                    mst = parse_state(t)
+                    exists = op[1] in names and not op[4]
+                    if exists:
+                        merr = 'value_error'
+                    if merr != err or (err == 'ok' and (mst[0], mst[1]) != observe(coll[op[1]])[:2]):
+                        ctx.disagree('set_attribute_data', dict(spec), {'err': err}, {'err': merr, 'state': mst})
+                        return
+            sel = pick_sel(r, coll)
+            spec['reads'].append(sel)
+            probs, states = collection_reads(coll, sel, ask)
+            names = list(coll.keys())
+            orders = {tuple(states[nm][0]) for nm in names} if states else set()
+            ctx.case(('coll', k, stage), sample={'attributes': {nm: states[nm][0] for nm in names} if states else None, 'filter': sel,
+                                                  'ops': [o[0] for o in spec['ops']]}, nontrivial=len(orders) > 1)
+            ctx.count('collection:read:' + ('attributes-in-different-id-orders' if len(orders) > 1 else 'one-id-order'))
+            for sig, detail in probs:
+                if sig == 'MODEL':
+                    ctx.disagree('collection filter', dict(spec), detail[0], detail[1:])
+                else:
+                    ctx.fail(sig, detail, {**spec, 'ops': list(spec['ops']), 'reads': list(spec['reads'])}, None)
+            if probs:
+                return
+        # the same collection as nodal_data of a FEMData: extraction of a part filters it by node id
+        names = list(coll.keys())
+        node_ids = [int(i) for i in coll[names[0]].ids]
+        if r.random() < .5 and len(node_ids) >= 2 and all(sorted(int(i) for i in coll[nm].ids) == sorted(node_ids) for nm in names):
+            et, arity = r.choice([('line', 2), ('tri', 3), ('tet', 4)])
+            if len(node_ids) >= arity:
+                ne = r.randint(1, 4)
+                eids, _ = mg.random_ids(r, ne)
+                r.shuffle(eids)
+                nid = r.sample(node_ids, len(node_ids))
+                fd = {'etype': et, 'node_ids': nid, 'coords': [[r.randint(-9, 9) for _ in range(3)] for _ in nid], 'elem_ids': eids,
+                      'conn': [r.sample(node_ids, arity) for _ in range(ne)], 'indices': r.sample(range(ne), r.randint(1, ne))}
+                spec['femdata'] = fd
+                ctx.count('collection:extract_with_element_indices')
+                ctx.case(('coll-femdata', k), nontrivial=True)
+                for sig, detail in femdata_extract_check(coll, fd):
+                    ctx.fail(sig, detail, {**spec, 'ops': list(spec['ops']), 'reads': list(spec['reads'])}, None)
+    except (RuntimeError, AssertionError):
+        raise
+    except Exception as e:
+        import traceback
+        tb = traceback.extract_tb(e.__traceback__)
+        where = next((f'{f.filename.split("/")[-1]}:{f.lineno}' for f in reversed(tb) if '/femio/' in f.filename), None)
+        if where is None:
+            raise
+        ctx.case(('coll-raises', k), nontrivial=True)
+        ctx.fail('collection:raises', f'a public path of a collection of attributes raised {type(e).__name__}: {e} (at {where})',
+                 {**spec, 'ops': list(spec['ops']), 'reads': list(spec['reads'])}, None)
+
+
+def run_collection(case):
+    coll = build_collection(case)
+    tails = {sp['name']: sp['tail'] for sp in case['attrs']}
+    found = []
+    for stage, sel in enumerate(case['reads']):
+        if stage:
+            apply_collection_op(coll, tails, case['ops'][stage - 1])
+        probs, _ = collection_reads(coll, list(sel))
+        found += [p for p in probs if p[0] != 'MODEL']
+    if len(case['ops']) >= len(case['reads']) and case['ops']:
+        for op in case['ops'][max(0, len(case['reads']) - 1):]:
+            apply_collection_op(coll, tails, op)
+    if 'femdata' in case and not found:
+        found += femdata_extract_check(coll, case['femdata'])
+    return found
+
+
+# ------------------------------------------------------------------------------------------------ time series
+def time_series_stream(ctx, k):
+    r = ctx.rng
+    n, T = r.randint(1, 5), r.randint(1, 3)
+    ids, style = mg.random_ids(r, n)
+    ids, order = mg.order_ids(r, list(ids), {i: i for i in ids})
+    tail = r.choice([[1], [2], [3]])
+    case = {'kind': 'time-series', 'ids': ids, 'steps': [rand_rows(r, n, tail[0]) for _ in range(T)], 'tail': tail,
+            'assign': [rand_rows(r, n, tail[0]) for _ in range(T)] if r.random() < .5 else None,
+            'sel': r.sample(ids, r.randint(1, n))}
+    ctx.count(f'time-series:ids:{order}')
+    ctx.case(('ts', k), sample={'ids': ids, 'steps': T}, nontrivial=True)
+    for sig, detail in run_time_series(case):
+        ctx.fail(sig, detail, case, None)
+
+
+def run_time_series(case):
+    """time-series attributes (data[t, k] belongs to ids[k]): assignment of data, then every read path"""
+    from femio import FEMAttribute
+    ids, tail = list(case['ids']), case['tail']
+    n = len(ids)
+    arr = lambda steps: np.stack([shape_rows(_restore(st), tail) for st in steps])
+    out = []
+    try:
+        a = FEMAttribute('t', ids=np.array(ids), data=arr(case['steps']), silent=True, time_series=True)
+        cur = case['steps']
+        if case.get('assign'):
+            a.data = arr(case['assign'])
+            cur = case['assign']
+        want = [[tuple(x) for x in _restore(st)] for st in cur]          # want[t][k]
+        T = len(want)
+        got = [[tuple(x) for x in rows_of(a.data[t], n)] for t in range(T)]
+        if [int(i) for i in a.ids] != ids or got != want or len(a) != n:
+            out.append(('time-series:data', 'ids / data differ from what was assigned'))
+        for kk, i in enumerate(ids):
+            for path, c in (('loc', a.loc[[i]]), ('iloc', a.iloc[[kk]])):
+                if [tuple(rows_of(c.data[t], 1)[0]) for t in range(T)] != [want[t][kk] for t in range(T)]:
+                    out.append((f'time-series:{path}', f'{path} of id {i} (position {kk}) differs from data[:, {kk}]'))
+        sel = list(case['sel'])
+        pos = [ids.index(i) for i in sel]
+        c = a.loc[sel]
+        if [int(i) for i in c.ids] != sel or [[tuple(x) for x in rows_of(c.data[t], len(sel))] for t in range(T)] != \
+                [[want[t][p] for p in pos] for t in range(T)]:
+            out.append(('time-series:loc', f'loc[{sel}] differs from the rows stored for these ids'))
+    except Exception as e:
+        out.append(('time-series:raises', f'{type(e).__name__}: {e}'))
+        return out
+    try:
+        f = a.filter_with_ids(np.array(sel))
+        fd = np.asarray(f.data, dtype=float)
+        if [int(i) for i in f.ids] != sel or fd.shape[:2] != (T, len(sel)) or \
+                [[tuple(x) for x in rows_of(fd[t], len(sel))] for t in range(T)] != [[want[t][p] for p in pos] for t in range(T)]:
+            out.append(('time-series:filter_with_ids', f'filter_with_ids({sel}) does not return, for every step, the rows stored for these ids'))
+    except Exception as e:
+        out.append(('time-series:filter_with_ids', f'filter_with_ids({sel}) on a time-series attribute raised {type(e).__name__}: {e}'))
+    return out
+
+
+# ------------------------------------------------------------------------------------------------ outside the quantifier
+def outside_stream(ctx, k):
+    """uses that are NOT public update operations in the sense of the property (recorded, never reported through fail):
+    editing the caller's own array after handing it over, assigning ids, writing an element block behind the collection"""
+    from femio import FEMAttribute, FEMElementalAttribute
+    r = ctx.rng
+    n = r.randint(2, 5)
+    ids, _ = mg.random_ids(r, n)
+    r.shuffle(ids)
+    kind = ['caller-array-edited-after-hand-over', 'ids-assigned', 'element-block-written-behind-collection'][k % 3]
+    try:
+        if kind == 'caller-array-edited-after-hand-over':
+            arr = shape_rows(rand_rows(r, n, 1), [1])
+            a = FEMAttribute('x', ids=np.array(ids), data=arr, silent=True, generate_id2index=True)
+            arr[0, 0] += 1.
+            agree = not oracle(a)
+        elif kind == 'ids-assigned':
+            a = FEMAttribute('x', ids=np.array(ids), data=shape_rows(rand_rows(r, n, 1), [1]), silent=True, generate_id2index=True)
+            a.ids = np.array([i + 1000 for i in ids])
+            agree = not oracle(a)
+        else:
+            el = mg.quiet(lambda: FEMElementalAttribute('ELEMENT', {
+                'tri': FEMAttribute('tri', ids=np.array(ids), data=np.array([[1, 2, 3]] * n), silent=True),
+                'line': FEMAttribute('line', ids=np.array([max(ids) + 1]), data=np.array([[1, 2]]), silent=True)}))
+            el['tri'].data = np.array([[4, 5, 6]] * n)
+            p = int(el.id2index.loc[ids[0]].values[0])
+            agree = [int(x) for x in el.data[p]] == [4, 5, 6]
+    except Exception:
+        agree = False
+    ctx.case(('outside', k), nontrivial=False)
+    ctx.count(f'outside-quantifier:{kind}:' + ('views-agree' if agree else 'views-disagree'))
 
 
 def elem_stream(ctx, k):
@@ -415,18 +1105,41 @@ def _elem_stream(ctx, k):
             ctx.disagree('flatten', case, list(zip(ids, types, data))[:6], mflat[:6])
 
 
+def _restore(x):
+    """JSON form of an operation argument -> the generator's form (rows of exact rationals)"""
+    if isinstance(x, list) and x and isinstance(x[0], list):
+        return [['n' if v == 'n' else Fraction(v) for v in r] for r in x]
+    return x
+
+
 def run_case(ctx, case):
-    """replay of a recorded history on the real code (oracle only)"""
+    """replay of a recorded history on the real code (oracle only); returns [(signature-or-path, detail)]"""
+    kind = case.get('kind', 'history')
+    if kind == 'collection':
+        return run_collection(case)
+    if kind == 'time-series':
+        return run_time_series(case)
     from femio import FEMAttribute, FEMAttributes
-    rows0 = [['n' if v == 'n' else Fraction(v) for v in r] for r in case['rows0']]
+    rows0 = _restore(case['rows0'])
     a = FEMAttribute('x', ids=np.array(case['ids']), data=shape_rows(rows0, case['tail']), silent=True,
                      generate_id2index=case['with_index'])
-    holder = {'attrs': FEMAttributes({'x': a}), 'name': 'x', 'tail': case['tail']}
-    for op in case['ops']:
-        op = [op[0]] + [([['n' if v == 'n' else Fraction(v) for v in r] for r in x] if (isinstance(x, list) and x and isinstance(x[0], list)) else x)
-                        for x in op[1:]]
-        apply_real(holder, op)
-    return oracle(holder['attrs']['x'])
+    holder = {'attrs': FEMAttributes({'x': a}), 'name': 'x', 'tail': case['tail'], 'held': [], 'refs': []}
+    found = []
+    for step, op in enumerate(case['ops']):
+        op = [op[0]] + [_restore(x) for x in op[1:]]
+        before = observe(holder['attrs']['x'])
+        before_held = [observe(c) for c in holder['held']]
+        err = apply_real(holder, op)
+        try:
+            after = observe(holder['attrs']['x'])
+            after_held = [observe(c) for c in holder['held']]
+        except Exception as e:
+            return found + [(f'views-disagree:{op[0]}:data', f'{type(e).__name__}: {e}')]
+        res = step_oracles(holder, op, err, before, before_held, after, after_held, step == 0)
+        found += [(sig, what) for sig, what, _ in res]
+        if any(f for _, _, f in res):
+            break
+    return found
 
 
 def run(ctx):
@@ -434,17 +1147,23 @@ def run(ctx):
         ctx.count('corpus')
         bad = run_case(ctx, j)
         ctx.case(('corpus', name), nontrivial=True)
-        if bad:
-            ctx.fail(f'views-disagree:{j["ops"][-1][0]}:{bad[0][0]}', f'corpus case {name}: {bad[0][1]}', j, bad[:5])
+        for sig, detail in bad:
+            ctx.fail(sig, f'corpus case {name}: {detail}', j, bad[:5])
     for h in range(ctx.n(250, 2500)):
         history(ctx, h)
+    for k in range(ctx.n(120, 1200)):
+        collection_stream(ctx, k)
+    for k in range(ctx.n(25, 250)):
+        time_series_stream(ctx, k)
     for k in range(ctx.n(80, 600)):
         elem_stream(ctx, k)
+    for k in range(ctx.n(20, 200)):
+        outside_stream(ctx, k)
 
 
 def replay(ctx, obj):
     case = obj['input']
-    if 'ops' not in case:
+    if 'ops' not in case and case.get('kind') != 'time-series':
         return {'fails': False, 'note': 'element-collection case: re-run the check'}
     bad = run_case(ctx, case)
     return {'problems': bad[:5], 'fails': bool(bad)}
